@@ -406,6 +406,40 @@ pub fn show_result<T: SourceTrait>(
     )
 }
 
+/// Mode `semapay`: the PAYLOADS of the semantic diagnostics in order (today only `RedeclarationError(name)` has
+/// one), `-` for a diagnostic without payload: part of the result of an analysis that the canonical I6 line does
+/// not carry (used by the determinism clause of C17).
+fn run_payloads(src: &str) -> String {
+    let parsed = oq3_source_file::parse_source_string(src, None, None::<&[PathBuf]>);
+    if parsed.have_syntax_errors() {
+        return "SYNTAX-ERRORS".into();
+    }
+    if !parsed.included().is_empty() {
+        return "UNSUPPORTED-INCLUDE".into();
+    }
+    let result = analyze_source(parsed);
+    let pay: Vec<String> = result
+        .semantic_errors()
+        .iter()
+        .map(|e| match e.kind() {
+            SemanticErrorKind::RedeclarationError(name) => hex(name),
+            _ => "-".to_string(),
+        })
+        .collect();
+    format!("epay={}", pay.join(","))
+}
+
+pub fn payload_line(line: &str) -> String {
+    let src = match decode_src(line) {
+        Some(s) => s,
+        None => return "bad-case".into(),
+    };
+    match catch_unwind(AssertUnwindSafe(|| run_payloads(&src))) {
+        Ok(s) => s,
+        Err(_) => format!("PANIC {}", last_panic().replace(['\n', '\r'], " ")),
+    }
+}
+
 pub fn line(line: &str) -> String {
     let src = match decode_src(line) {
         Some(s) => s,
